@@ -358,12 +358,19 @@ class ExceptionTrace(object):
         )
 
         code_lines = Highlighter(supports_utf8=io.supports_utf8()).code_snippet(
-            frame.file_content, frame.lineno, 4, 4
+            self._file_content(frame), frame.lineno, 4, 4
         )
 
         with io.increment_indent(2):
             for code_line in code_lines:
                 self._render_line(io, code_line)
+
+    def _file_content(self, frame):  # type: (...) -> str
+        try:
+            return frame.file_content
+        except ValueError:
+            # The file exists but is no text (UnicodeDecodeError): there is no source to show
+            return ""
 
     def _render_solution(self, io, inspector):
         if self._solution_provider_repository is None:
@@ -458,7 +465,7 @@ class ExceptionTrace(object):
                         if cache_key not in self._FRAME_SNIPPET_CACHE:
                             code_lines = Highlighter(
                                 supports_utf8=io.supports_utf8()
-                            ).code_snippet(frame.file_content, frame.lineno,)
+                            ).code_snippet(self._file_content(frame), frame.lineno,)
 
                             self._FRAME_SNIPPET_CACHE[cache_key] = code_lines
 
